@@ -1,6 +1,6 @@
 (** C14 -- property theorems, THOROUGH TIER ONLY: pressure rises with density at fixed temperature for
     super (region 3) -- PARTIAL, on explicit rectangles of (t, d) covering the hottest part of region 3
-    (507..590 degC); see Mono3Thm.v for what is not proved and why. *)
+    (467..590 degC; colder, incl. the whole critical neighbourhood 350..467 degC, is excluded); see Mono3Thm.v for what is not proved and why. *)
 From Coq Require Import ZArith QArith Qreals Reals List.
 From Gen Require Import GenIAPWS GenTraced.
 From P Require Import Expr RunR Potential Mono3 Mono3Thm.
@@ -9,8 +9,9 @@ Close Scope Q_scope.
 Open Scope R_scope.
 
 Theorem pressure_increases_with_density_region3_partial : forall t d1 d2 : R,
-  507 <= t <= 590 -> d1 < d2 ->
-  (t <= 527 -> 306 <= d1 /\ d2 <= 517) -> (527 < t <= 547 -> 329 <= d1 /\ d2 <= 483) ->
+  467 <= t <= 590 -> d1 < d2 ->
+  (t <= 486 -> 253 <= d1 /\ d2 <= 586) -> (486 < t <= 506 -> 281 <= d1 /\ d2 <= 552) ->
+  (506 < t <= 527 -> 306 <= d1 /\ d2 <= 517) -> (527 < t <= 547 -> 329 <= d1 /\ d2 <= 483) ->
   (547 < t <= 567 -> 349 <= d1 /\ d2 <= 450) -> (567 < t -> 367 <= d1 /\ d2 <= 419) ->
   let P d := nth 0 (outsR super_traced [d; t] n3) 0 in
   P d1 < P d2.
